@@ -359,6 +359,15 @@ def check_case(case):
     old = sys.getrecursionlimit()
     sys.setrecursionlimit(1000)
     try:
+        if "interpreter_recursion_limit" in case:
+            case = dict(case)
+            lim = case.pop("interpreter_recursion_limit")
+            sys.setrecursionlimit(lim)
+            try:
+                vs = check_input(case["doc"], case["limit"], case["nondeterministic"], case["query"], full_tree=False, dev=0, cap=3)
+            finally:
+                sys.setrecursionlimit(1000)
+            return vs[0] if vs else None
         if "history" in case:
             return run_history(case["limit"], case["nondeterministic"], case["query"], tuple(case["history"]))
         spec, limit, nd, query = case["doc"], case["limit"], case["nondeterministic"], case["query"]
@@ -495,6 +504,7 @@ def shards(tier):
     out.append({"part": "dag", "tier": tier})
     out.append({"part": "instance", "tier": tier})
     out.append({"part": "infilter", "tier": tier})
+    out.append({"part": "lowstack", "tier": tier})
     for qi in range(len(HIST_QUERIES)):
         for nd in (False, True):
             out.append({"part": "history", "q": qi, "nd": nd, "tier": tier})
@@ -574,6 +584,24 @@ def run_shard(desc):
                         for v in check_input({"kind": "cycle", "name": name}, limit, nd, "$..*", full_tree=(limit <= full_upto),
                                              sh=sh, dev=1, cap=3000, how="instance-after-compile"):
                             sh.violation(v)
+        elif desc["part"] == "lowstack":
+            # the application lowered the interpreter's recursion limit (to 260): the bound is still the
+            # one configured on the environment, data within it (well inside the interpreter limit) completes
+            for limit in (100, 150):
+                for n in (limit - 40, limit - 1, limit, limit + 1):
+                    for link in ("list", "alt"):
+                        spec = {"kind": "chain", "n": n, "link": link, "bottom": "scalar", "where": "alone"}
+                        for nd in (False, True):
+                            for q in ("$..*", "$..a"):
+                                sh.nontrivial += 1
+                                sys.setrecursionlimit(260)
+                                try:
+                                    vs = check_input(spec, limit, nd, q, full_tree=False, sh=sh, dev=0, cap=3)
+                                finally:
+                                    sys.setrecursionlimit(1000)
+                                for v in vs:
+                                    v["case"]["interpreter_recursion_limit"] = 260
+                                    sh.violation(v)
         elif desc["part"] == "history":
             import itertools
             query = HIST_QUERIES[desc["q"]]
